@@ -79,18 +79,26 @@ func (s *JsonObjectBuilder) writeKey(key string) {
 
 var escapeLookup = [93]string{'\b': "\\b", '\f': "\\f", '\n': "\\n", '\r': "\\r", '\t': "\\t", '"': `\"`, '\\': `\\`}
 
+const hexDigits = "0123456789abcdef"
+
 func escape(s string) string {
 	var sb strings.Builder
 	hasMapped := false
 
 	for i, r := range s {
-		if int(r) < len(escapeLookup) && escapeLookup[r] != "" {
+		if int(r) < len(escapeLookup) && (escapeLookup[r] != "" || r < 0x20) {
 			if !hasMapped {
 				sb.Grow(len(s) + 5)
 				sb.WriteString(s[:i])
 				hasMapped = true
 			}
-			sb.WriteString(escapeLookup[r])
+			if esc := escapeLookup[r]; esc != "" {
+				sb.WriteString(esc)
+			} else { // any other control character: \u00XX
+				sb.WriteString(`\u00`)
+				sb.WriteByte(hexDigits[r>>4])
+				sb.WriteByte(hexDigits[r&0xf])
+			}
 		} else if hasMapped {
 			sb.WriteRune(r)
 		}
